@@ -84,8 +84,52 @@ def setup_frontend():
     import frontend.server.connector as conn
     import frontend.client.services.service  # noqa: F401  (creates its logger and log file now, outside any run)
     assert os.path.realpath(conn.__file__).startswith(REPO), conn.__file__
+    import schemes
+    for name in ("CGKO06.SSE1", "CGKO06.SSE2", "CJJ14.PiBas", "CJJ14.PiPack", "CJJ14.PiPtr", "CJJ14.Pi2Lev", "CT14.Pi", "ANSS16.Scheme3", "DP17.Pi"):
+        schemes.load_sse_module(name)
+    snapshot_repo_state()
     _state["frontend"] = True
     return seam
+
+
+_SNAP = {}
+
+
+def _repo_modules():
+    for name, mod in list(sys.modules.items()):
+        f = getattr(mod, "__file__", None)
+        if f and os.path.realpath(f).startswith(REPO + os.sep):
+            yield name, mod
+
+
+def snapshot_repo_state():
+    """module-level state of the code under test as a freshly started interpreter has it: the set of global names of every
+    repo module and a shallow copy of every plain container among them"""
+    for name, mod in _repo_modules():
+        if name in _SNAP:
+            continue
+        g = vars(mod)
+        _SNAP[name] = (set(g), {k: (type(v), v.copy()) for k, v in g.items() if type(v) in (dict, list, set)})
+
+
+def restore_repo_state():
+    """undo what earlier runs of this interpreter left in module-level state of the code under test (a run must not see
+    another run's caches: one plan = one execution)"""
+    for name, mod in _repo_modules():
+        snap = _SNAP.get(name)
+        g = vars(mod)
+        if snap is None:
+            snapshot_repo_state()
+            continue
+        names, containers = snap
+        for k in [k for k, v in g.items() if k not in names and not k.startswith("__")
+                  and not isinstance(v, (type(sys), type)) and not callable(v)]:
+            del g[k]  # data a previous run added (lazily imported submodules, functions and classes are left alone)
+        for k, (tp, copy_) in containers.items():
+            cur = g.get(k)
+            if type(cur) is tp and cur != copy_:
+                cur.clear()
+                cur.update(copy_) if tp is not list else cur.extend(copy_)
 
 
 def sse_dir():
